@@ -353,6 +353,18 @@ func sourceChars() []string {
 	return out
 }
 
+// knownWords: the dictionary of the tree this harness was written against.
+// Words beyond it are new to the language as the harness knows it.
+var knownWords = map[string]bool{"$1": true, "$left": true, "$right": true, "AND": true, "EOF": true, "FALSE": true, "NULL": true, "OR": true, "TRUE": true, "TokenError": true, "and": true, "as": true, "asc": true, "by": true, "count": true, "countif": true, "desc": true, "errors": true, "extend": true, "false": true, "filter": true, "first": true, "fmt": true, "foo": true, "iff": true, "iif": true, "in": true, "inner": true, "innerunique": true, "isnotnull": true, "isnull": true, "join": true, "kind": true, "last": true, "leftouter": true, "let": true, "limit": true, "not": true, "now": true, "null": true, "nulls": true, "on": true, "or": true, "order": true, "project": true, "render": true, "render_prop_": true, "slices": true, "sort": true, "strcat": true, "strconv": true, "strings": true, "summarize": true, "sync": true, "take": true, "tolower": true, "top": true, "toupper": true, "true": true, "unicode": true, "unreachable": true, "where": true, "with": true, "__subquery": true, "render_type": true}
+
+func init() {
+	for _, w := range sourceWords() {
+		if !knownWords[w] && plainOK(w) && len(w) >= 3 {
+			gen.ExtraPassThrough = append(gen.ExtraPassThrough, w)
+		}
+	}
+}
+
 var dictTail = []string{".", "=", "a", "#", "(", ")"}
 var dictContexts = []string{"T | join %s (U) on k", "T | join kind=inner %s (U) on k", "T | join (U) on k %s", "T | %s", "T | where a %s", "T | sort by a %s", "T | take 1 %s", "T | summarize %s", "T | project %s", "T | render x %s", "T | as x %s", "%s", "let %s"}
 
